@@ -402,6 +402,8 @@ func c6FrontEnds(c *Ctx, lv map[string]int64) {
 		if w != nil {
 			_, t, _ := BranchOn(fn, Desc(call)+" != nil")
 			ok = t != nil && !ExistsPath(fn, AtBlock(t), IsReturn, func(i ssa.Instruction) bool { return i == w })
+			// or: written on every path whatever it is, Write itself returning at once on a nil receiver
+			ok = ok || (mustPass(fn, func(i ssa.Instruction) bool { return i == w }) && ceWriteNilSafe(c))
 		}
 		c.Check(ok, "R6.2", fn.String(), "writes-unless-nil", call.Pos(), "the checked entry is written on every path where it is non-nil")
 	}
@@ -485,6 +487,7 @@ func c6FrontEnds(c *Ctx, lv map[string]int64) {
 		if w != nil {
 			_, t, _ := BranchOn(fn, Desc(chk)+" != nil")
 			ok = t != nil && !ExistsPath(fn, AtBlock(t), IsReturn, func(i ssa.Instruction) bool { return i == w })
+			ok = ok || (mustPass(fn, func(i ssa.Instruction) bool { return i == w }) && ceWriteNilSafe(c))
 		}
 		c.Check(ok, "R6.2", name, "writes-unless-nil", chk.Pos(), "the checked entry is written on every path where it is non-nil")
 	}
@@ -1214,7 +1217,7 @@ func c6StdBridge(c *Ctx, rule string, lv map[string]int64) {
 		levelIdx int // index of the level parameter, -1: none (Info)
 	}
 	nDecided := 0
-	for _, ct := range []ctor{{"NewStdLog", -1}, {"NewStdLogAt", 1}, {"redirectStdLogAt", 1}} {
+	for _, ct := range []ctor{{"NewStdLog", -1}, {"NewStdLogAt", 1}, {"RedirectStdLog", -1}, {"RedirectStdLogAt", 1}} {
 		fn := c.Func(zp, ct.name)
 		if !c.Anchor(rule, "zap."+ct.name, fn != nil && len(fn.Params) > ct.levelIdx) {
 			continue
@@ -1242,7 +1245,7 @@ func c6StdBridge(c *Ctx, rule string, lv map[string]int64) {
 				MaxDepth: 6,
 				// one bridge built on another (NewStdLog as NewStdLogAt at InfoLevel)
 				InlineAny: func(h *ssa.Function) bool {
-					return h.Pkg != nil && h.Pkg.Pkg.Path() == zp && h.Signature.Recv() == nil && (h.Name() == "NewStdLog" || h.Name() == "NewStdLogAt" || h.Name() == "redirectStdLogAt")
+					return h.Pkg != nil && h.Pkg.Pkg.Path() == zp && h.Signature.Recv() == nil && (h.Name() == "NewStdLog" || h.Name() == "NewStdLogAt" || h.Name() == "RedirectStdLog" || h.Name() == "RedirectStdLogAt")
 				},
 				Init: func(st *ConcState) {
 					if ct.levelIdx >= 0 {
@@ -1363,8 +1366,8 @@ func c6StdBridge(c *Ctx, rule string, lv map[string]int64) {
 				ct.name, lc.name, lc.k, map[bool]string{true: "installs a writer and succeeds", false: "fails and installs nothing"}[lc.valid], installed, errs)
 		}
 	}
-	if nDecided < 15 {
-		c.Bad(rule, "std-log bridge", "count", token.NoPos, "expected NewStdLog plus 2 constructors x 10 levels, decided %d", nDecided)
+	if nDecided < 22 {
+		c.Bad(rule, "std-log bridge", "count", token.NoPos, "expected NewStdLog and RedirectStdLog plus 2 constructors x 10 levels, decided %d", nDecided)
 	}
 }
 
